@@ -92,3 +92,30 @@ pub fn unicode_texts() -> Vec<String> {
     }
     v
 }
+
+/// tokens of every length up to 140 bytes (and around 256, 1024, 4096, 65536) whose tail is multi-byte, so
+/// that some character straddles every byte offset an implementation might cut at; each in every token kind
+/// an error message can quote
+pub fn long_multibyte_texts() -> Vec<String> {
+    let mut ks: Vec<usize> = (0..=140).collect();
+    for c in [256usize, 1024, 4096, 65536] {
+        ks.extend(c - 6..=c + 2);
+    }
+    let mut v = Vec::new();
+    for k in ks {
+        for tail in ["ééééé", "€€€€", "😀😀😀", "é€😀é€😀"] {
+            let body = format!("{}{}", "a".repeat(k), tail);
+            v.push(format!("say \"{}", body)); // unterminated string
+            v.push(format!("say \"{}\" \"x\"", body)); // a string where a newline is due
+            v.push(format!("({}", body)); // unterminated comment
+            v.push(format!("say {}1", body)); // invalid identifier
+            v.push(format!("say 1 {}", body)); // a word where a newline is due
+            v.push(format!("{} {}", body, body)); // a statement that cannot start
+            v.push(format!("the {}1 is 5", body));
+            v.push(format!("x says {}\nsay\n", body));
+            v.push(format!("x is {} {}\nsay x\nelse\n", body, body));
+            v.push(format!("A{} B{} taking", body, body));
+        }
+    }
+    v
+}
